@@ -250,6 +250,7 @@ func (e *Exec) choose(n int, label string) int {
 	if e.replaying() {
 		return int(e.nextReplay())
 	}
+	e.nChoices++
 	base := append([]int64(nil), e.trace...)
 	for k := n - 1; k >= 1; k-- {
 		alt := append(append([]int64(nil), base...), int64(k))
@@ -353,6 +354,7 @@ type PathResult struct {
 	Reached         []string
 	Steps           int
 	Branches        int
+	Choices         int
 	Queries         int
 	Sample          map[string]string
 	Trace           []int64
@@ -361,7 +363,7 @@ type PathResult struct {
 type Summary struct {
 	Paths, Done, Infeasible, OOE, BoundExceeded, Errors int
 	Obligations, Discharged, Inconclusive               int
-	Branches, Queries, Steps                            int
+	Branches, Choices, Queries, Steps                   int
 	Violations                                          []Violation
 	Known                                               map[string]int
 	Reached                                             map[string]int
@@ -512,6 +514,7 @@ func (s *Summary) add(pr *PathResult, w *World) {
 		s.InconclusiveWhy[y]++
 	}
 	s.Branches += pr.Branches
+	s.Choices += pr.Choices
 	s.Queries += pr.Queries
 	s.Steps += pr.Steps
 	for _, r := range pr.Reached {
@@ -543,6 +546,7 @@ func (e *Exec) runPath(j *job) (pr *PathResult) {
 		e.restoreGlobals()
 		pr.Steps = e.steps
 		pr.Branches = e.nBranches
+		pr.Choices = e.nChoices
 		pr.Queries = e.nQueries
 		pr.Trace = append([]int64(nil), e.trace...)
 		for k := range e.reached {
@@ -596,6 +600,7 @@ func (e *Exec) resetPath(j *job) {
 	e.model = e.importModel(j.model)
 	e.steps = 0
 	e.nBranches = 0
+	e.nChoices = 0
 	e.nQueries = 0
 	e.nUnknown = 0
 	e.varSeq = map[string]int{}
